@@ -1,3 +1,4 @@
+import os.path
 import re
 import stat
 import subprocess
@@ -18,7 +19,17 @@ class CompressedGopherEntry(gopherentry.GopherEntry):
 class FileHandler(BaseHandler):
     def canhandlerequest(self):
         """We can handle the request if it's for a file."""
+        if self.isdircachefile():
+            return False
         return self.statresult and stat.S_ISREG(self.statresult[stat.ST_MODE])
+
+    def isdircachefile(self) -> bool:
+        # The directory handler's cache files are the server's own, not
+        # content: they come and go with listings and hold the configuration.
+        section = "handlers.dir.DirHandler"
+        return self.config.has_option(section, "cachefile") and os.path.basename(
+            self.getselector()
+        ) == self.config.get(section, "cachefile")
 
     def getentry(self):
         if not self.entry:
